@@ -171,6 +171,7 @@ func (e *enc) run() (ok bool) {
 		e.val(fv)
 	}
 	e.entryAssumptions()
+	e.entryAt = len(e.asserts)
 	for _, b := range e.order {
 		e.curBlock = b
 		e.curInstr = nil
@@ -307,6 +308,35 @@ func (e *enc) resolveLocal(name string, at *ssa.BasicBlock) (ssa.Value, bool, bo
 	return nil, false, false
 }
 
+// resolveLocalAtEnd: like resolveLocal but including the definitions inside block at itself.
+func (e *enc) resolveLocalAtEnd(name string, at *ssa.BasicBlock) (ssa.Value, bool, bool) {
+	for i := len(at.Instrs) - 1; i >= 0; i-- {
+		switch x := at.Instrs[i].(type) {
+		case *ssa.DebugRef:
+			if id, ok := x.Expr.(*ast.Ident); ok && id.Name == name {
+				return x.X, x.IsAddr, true
+			}
+		case *ssa.Phi:
+			if x.Comment == name {
+				return x, false, true
+			}
+		}
+	}
+	if at.Idom() == nil {
+		return nil, false, false
+	}
+	return e.resolveLocalAtEnd(name, at.Idom())
+}
+
+func (e *enc) headerByOrdinal(n int) *ssa.BasicBlock {
+	for h, k := range e.headers {
+		if k == n {
+			return h
+		}
+	}
+	return nil
+}
+
 func (e *enc) paramEnv() *cenv {
 	env := e.newEnv()
 	for _, p := range e.f.Params {
@@ -369,6 +399,20 @@ func (e *enc) loopEnv(h *ssa.BasicBlock, edge *ssa.BasicBlock, st hstate) *cenv 
 	for _, p := range e.f.Params {
 		name := p.Name()
 		env.vars["old_"+name] = cval{e.val(p), e.sortOf(p.Type()), p.Type()}
+	}
+	env.atEntry = func() *cenv {
+		var ep *ssa.BasicBlock
+		for _, p := range h.Preds {
+			if !e.back[[2]*ssa.BasicBlock{p, h}] && e.reach[p] != "" {
+				ep = p
+			}
+		}
+		if ep == nil {
+			return env
+		}
+		ne := e.loopEnv(h, ep, e.heapAt[ep])
+		ne.atEntry = nil
+		return ne
 	}
 	return env
 }
@@ -481,6 +525,16 @@ func (e *enc) loopObligations() {
 			isBack := e.back[[2]*ssa.BasicBlock{p, h}]
 			env := e.loopEnv(h, p, e.heapAt[p])
 			path := fmt.Sprintf("(and %s %s)", e.reach[p], e.edgeCond(p, h))
+			if !isBack {
+				for _, c := range lc.Entry {
+					t, err := env.boolTerm(c.Expr)
+					if err != nil {
+						e.contractError(c, err)
+						continue
+					}
+					e.add("inv", fmt.Sprintf("loop%d:%s:at-entry", n, c.Label), token.NoPos, path, t)
+				}
+			}
 			for _, c := range lc.Invariants {
 				t, err := env.boolTerm(c.Expr)
 				if err != nil {
@@ -500,6 +554,32 @@ func (e *enc) loopObligations() {
 					pos = e.nearPos(p.Instrs[len(p.Instrs)-1])
 				}
 				e.add("inv", lbl, pos, path, t)
+			}
+			if isBack {
+				for _, c := range lc.Step {
+					henv := e.loopEnv(h, nil, e.heapIn[h])
+					latch := p
+					henv.nextEnv = func() *cenv {
+						ne := e.loopEnv(h, latch, e.heapAt[latch])
+						base := ne.lookup
+						ne.lookup = func(name string) (cval, bool) {
+							// names that are not loop-carried are resolved at the end of the iteration
+							if v, isAddr, ok := e.resolveLocalAtEnd(name, latch); ok {
+								if phi, isPhi := v.(*ssa.Phi); !(isPhi && phi.Block() == h) && !isAddr {
+									return cval{e.val(v), e.sortOf(v.Type()), v.Type()}, true
+								}
+							}
+							return base(name)
+						}
+						return ne
+					}
+					t, err := henv.boolTerm(c.Expr)
+					if err != nil {
+						e.contractError(c, err)
+						continue
+					}
+					e.add("inv", fmt.Sprintf("loop%d:%s:iteration", n, c.Label), token.NoPos, path, t)
+				}
 			}
 			if isBack && lc.Decreases != nil {
 				henv := e.loopEnv(h, nil, e.heapIn[h])
